@@ -25,6 +25,8 @@ function leafKinds() {
     ['text:interleaved', () => text('a', X, 'b', Y, 'c')],
     ['text:blank-between-bindings', () => text(X, ' ', Y)],
     ['text:braces', () => text('{{a}} }} {')],
+    // data fields named like members of Object.prototype
+    ['text:prototype-named-fields', () => text(E(id('toString')), '/', E(id('constructor')))],
     ['text:backslashes', () => text('C:\\0\\tmp \\d\\07 \\\\0 \\n \\x41 \\u0041')],
     ['text:backslash+binding', () => text('\\0=', X, '\\1')],
     ['text:reference-lengths', () => text('a\tb\u00e9c\u{1f600}d\u{10ffff}e')],
@@ -156,6 +158,7 @@ function controlKinds() {
     ['if-comment-else', (b) => [el('v', [], b, { wxIf: C0 }), comment(' k '), el('w', [], b, { wxElse: true })]],
     ['if-blank-else', (b) => [el('v', [], b, { wxIf: C0 }), text('\n  '), el('w', [], b, { wxElse: true })]],
     ['if:then-sibling', (b) => [el('v', [], b, { wxIf: C0 }), el('s')]],
+    ['if:prototype-named-condition', (b) => [el('v', [], b, { wxIf: E(id('toString')) }), el('w', [], [text(E(id('constructor')))], { wxElse: true }), text(E(id('constructor')))]],
     ['if:static-true', (b) => [el('v', [], b, { wxIf: E(M.lit('true')) })]],
     ['for:element', (b) => [el('v', [A.plain('i', E(id('index')))], [...b, text(E(id('item')))], { wxFor: { list: LIST } })]],
     ['for:block', (b) => [block([...b, text(E(id('index')), ':', E(id('item')))], { wxFor: { list: LIST } })]],
@@ -188,6 +191,8 @@ function controlKinds() {
     ['template:is-spread', (b) => [tdef('t', [...b, text(E(id('b')))]), tis('t', M.obj([{ spread: id('a') }]))]],
     ['template:is-dynamic', (b) => [tdef('t', [...b, text('T')]), tdef('u', [text('U')]), tis(E(id('n')))]],
     ['template:is-missing', (b) => [tdef('t', b), tis('zz')]],
+    ['template:is-missing-prototype-name', (b) => [tdef('t', b), tis('constructor'), tis('toString'), tis('__proto__')]],
+    ['template:named-__proto__', (b) => [tdef('__proto__', [...b, text('P')]), tdef('constructor', [text('C')]), tis('__proto__'), tis('constructor')]],
     ['template:def-after-use', (b) => [tis('t', M.obj([{ short: 'x' }])), tdef('t', [...b, text(E(id('x')))])]],
     ['template:is+if', (b) => [tdef('t', b), tis('t', undefined, { wxIf: C0 })]],
     ['template:is+for', (b) => [tdef('t', [...b, text(E(id('v')))]), tis('t', M.obj([{ key: 'v', value: id('item') }]), { wxFor: { list: LIST } })]],
@@ -198,6 +203,8 @@ function controlKinds() {
     ['slot-scope:child', (b) => [el('c', [], [el('d', [], [...b, text(E(id('u')))], { slotScopes: [['u', undefined]] })])]],
     ['slot-scope:alias', (b) => [el('c', [], [el('d', [], [...b, text(E(id('w')))], { slotScopes: [['u', 'w']] })])]],
     ['slot-scope:dashed', (b) => [el('c', [], [el('d', [], [...b, text(E(id('uV')))], { slotScopes: [['u-v', undefined]] })])]],
+    // a text node directly in the slot next to the slot-scoped element, and a slot-scoped element in a child without dynamic slots
+    ['slot-scope:text-sibling', (b) => [el('c', [], [el('d', [], [...b, text(E(id('u')))], { slotScopes: [['u', undefined]] }), text('T', X)])]],
     ['slot-scope:block', (b) => [el('c', [], [block([...b, text(E(id('u')))], { slotScopes: [['u', undefined]], slot: 's' })])]],
     ['block:slot-attr', (b) => [el('c', [], [block(b, { slot: 's' })])]],
     ['block:slot-attr-dynamic', (b) => [el('c', [], [block(b, { slot: X })])]],
@@ -248,6 +255,9 @@ function exprForms() {
     ['paren-bitor', M.bin('^', M.grp(M.bin('|', x, y)), M.lit('1'))],
     ['typeof', M.un('typeof', x)],
     ['length', M.mem(id('list'), 'length')],
+    // reads of a list by constant index (a splice shifts what every later index holds)
+    ['list-index', M.idx(id('list'), M.lit('1'))],
+    ['list-index-member', M.mem(M.idx(id('list'), M.lit('0')), 'v')],
     // a parenthesised conditional as an operand (its branches must stay dependencies of the whole expression)
     ['cond-operand', M.bin('+', M.grp(M.cond(c, x, y)), M.lit("'s'"))],
     ['not-cond', M.un('!', M.grp(M.cond(c, x, y)))],
@@ -330,6 +340,9 @@ function placementCases() {
     ['inside-if', (e) => [block([el('w', [A.plain('q', E(e))])], { wxIf: E(id('d2')) })]],
     ['inside-else', (e) => [block([text('x')], { wxIf: E(id('d')) }), block([text(E(e))], { wxElse: true })]],
     ['inside-for', (e) => [block([el('w', [A.plain('q', E(e))])], { wxFor: { list: E(id('list')) } })]],
+    // a condition that is a constant string still makes a dynamic subtree (the untaken branch is never created)
+    ['inside-static-if', (e) => [block([el('w', [A.plain('q', E(e))])], { wxIf: 'yes' })]],
+    ['inside-else-of-static-if', (e) => [el('w', [], [text('A')], { wxIf: 'yes' }), el('w', [], [text(E(e))], { wxElse: true })]],
     ['template-data', (e) => [tdef('t', [text(E(id('v')))]), tis('t', M.obj([{ key: 'v', value: e }]))]],
     ['template-target', (e) => [tdef('X', [text('TX')]), tdef('X2', [text('TX2')]), tis(E(e))]],
     ['template-body', (e) => [tdef('t', [text(E(e))]), tis('t', M.obj([{ short: 'x' }, { short: 'y' }, { short: 'c' }]))]],
@@ -358,7 +371,7 @@ function placementCases() {
   for (const [on, of] of outers) for (const [nn, nf] of nested) {
     unreachable.push([`after-${nn}-inside-${on}`, (e) => of([...nf(), el('s', [A.plain('q', E(e))], [text(E(e))])])])
   }
-  const basicCount = 13 // the positions listed literally above are crossed with every form and every mappable position; the composed ones with two of each
+  const basicCount = 15 // the positions listed literally above are crossed with every form and every mappable position; the composed ones with two of each
   for (const [fn, f] of forms) for (const [mn, m] of mappable) for (const [un, u] of unreachable) for (const order of [0, 1]) {
     if (unreachable.findIndex((x) => x[0] === un) >= basicCount && !((fn === 'plain' || fn === 'cond') && (mn === 'text' || mn === 'attr'))) continue
     const e = f(id('x'))
@@ -377,7 +390,10 @@ function placementCases() {
 /** function-valued data (named, so that histories can be written down and replayed) */
 const FNS = { f1: function f1(v) { return '<' + v + '>' }, f2: function f2(v) { return '[' + v + ']' } }
 
-const VALUES = {
+// (no prototype: fields named like members of Object.prototype are ordinary fields)
+const VALUES = Object.assign(Object.create(null), {
+  toString: [0, 1, undefined],
+  constructor: ['K', undefined, 0],
   f: [FNS.f1, FNS.f2, undefined],
   x: [undefined, null, 'X', 0, false, '', 7, { toString() { return 'obj' } }],
   y: [undefined, 'Y', 0, null],
@@ -389,7 +405,7 @@ const VALUES = {
   obj: [undefined, {}, { a: { id: 1, v: 'p' }, b: { id: 2, v: 'q' } }, { b: { id: 2, v: 'q' }, a: { id: 1, v: 'p' } }, { k: 1 }],
   n: ['t', 'u', undefined, '', 'b'],
   b: [undefined, 'BB'],
-}
+})
 
 function collectNames(obj, out = new Set()) {
   if (!obj || typeof obj !== 'object') return out
